@@ -60,6 +60,42 @@ def optTail (nScript : Nat) (r : Option (Interaction Float × Script Float)) : S
   | none => "script-exhausted"
   | some (i, rest) => showOutcome nScript (.done i 0 rest)
 
+
+/-- `t <shell> <initial> <auger|-> <prob> <energy>` groups -/
+def parseTransitions : List String → Option (List (Nat × Transition Float))
+  | [] => some []
+  | "t" :: sh :: ini :: au :: p :: e :: rest =>
+    match parseNat sh, parseNat ini, pf p, pf e, parseTransitions rest with
+    | some sh, some ini, some p, some e, some r =>
+      if au == "-" then some ((sh, ⟨ini, none, p, e⟩) :: r)
+      else match parseNat au with
+        | some a => some ((sh, ⟨ini, some a, p, e⟩) :: r)
+        | none => none
+    | _, _, _, _, _ => none
+  | _ => none
+
+/-- every transition belongs to an existing shell and leads to strictly outer shells (so the
+    real loop terminates) -/
+def transitionsValid (n : Nat) (ts : List (Nat × Transition Float)) : Bool :=
+  ts.all fun (sh, t) => sh < n && t.initial > sh && (match t.auger with | some a => a > sh | none => true)
+
+def relaxOp (ws : List String) : String :=
+  let (l, r) := splitBar ws
+  match l with
+  | sh :: n :: ec :: gc :: ts =>
+    match parseNat sh, parseNat n, pf ec, pf gc, parseTransitions ts, pfs r with
+    | some sh, some n, some ec, some gc, some ts, some script =>
+      if n == 0 || n > 64 || sh ≥ n || !transitionsValid n ts then "bad-op" else
+      let shells := (List.range n).map fun i => (ts.filter fun x => x.1 == i).map (·.2)
+      match atomicRelaxation shells ec gc sh script with
+      | none => "script-exhausted"
+      | some (secs, sum, rest) =>
+        let body := String.intercalate " " (secs.map secStr)
+        let body := if body.isEmpty then "" else " " ++ body
+        s!"relaxed {secs.length} {hx sum}{body} {script.length - rest.length}"
+    | _, _, _, _, _, _ => "bad-op"
+  | _ => "bad-op"
+
 def driverStep (st : Unit) (line : String) : Unit × String :=
   (st, match words line with
   | ["consts"] =>
@@ -100,6 +136,7 @@ def driverStep (st : Unit) (line : String) : Unit × String :=
        | some [e, x, y, z, eg], some script =>
          optTail script.length (bremTail e emass ⟨x, y, z⟩ eg script)
        | _, _ => "bad-op")
+  | "relax" :: rest => relaxOp rest
   | "rotate" :: rest =>
       (match pfs rest with
        | some [a, b, c, x, y, z] => hv (rotate ⟨a, b, c⟩ ⟨x, y, z⟩)
